@@ -44,16 +44,19 @@ pub enum K {
     B,
     /// plain call of about 5 KB
     H,
+    /// plain call of about 300 KB: call and reply are larger than the kernel's socket buffers
+    G,
 }
 
 fn call(kind: K, id: u32) -> (Vec<u8>, Option<Value>) {
     let tag = match kind {
         K::B => format!("big-{id}-{}", "\u{e4}bcdefghi".repeat(30)),
         K::H => format!("huge-{id}-{}", "\u{e4}bcdefghi".repeat(500)),
+        K::G => format!("giant-{id}-{}", "\u{e4}bcdefghi".repeat(30_000)),
         _ => format!("t\u{e4}g-{id}"),
     };
     let (v, reply) = match kind {
-        K::P | K::B | K::H => (json!({"method": "t.Plain", "parameters": {"n": id, "tag": tag}}), Some(json!({"parameters": {"n": id, "tag": tag}}))),
+        K::P | K::B | K::H | K::G => (json!({"method": "t.Plain", "parameters": {"n": id, "tag": tag}}), Some(json!({"parameters": {"n": id, "tag": tag}}))),
         K::O => (json!({"method": "t.Plain", "parameters": {"n": id, "tag": tag}, "oneway": true}), None),
         K::F => (json!({"method": "t.Fail", "parameters": {"n": id}}), Some(json!({"error": "t.Failed", "parameters": {"n": id}}))),
     };
@@ -91,6 +94,7 @@ impl RealSrv {
             "O" => K::O,
             "F" => K::F,
             "B" => K::B,
+            "G" => K::G,
             _ => K::H,
         };
         Some(RealSrv {
@@ -258,8 +262,30 @@ impl RealSrv {
                 bytes.extend_from_slice(&call(*k, *id).0);
             }
             cx.log(|| format!("client {i}: writes {:?} ({} bytes), then {:?}{}", c.kinds, bytes.len(), c.ending, if c.early { " at once" } else { "" }));
-            if let Err(e) = c.sock.as_mut().unwrap().write_all(&bytes) {
-                xplore::bug!("client write: {e}");
+            // (a burst larger than the socket buffer is written piecemeal while the server runs)
+            let mut off = 0;
+            let mut spins = 0;
+            while off < bytes.len() {
+                match c.sock.as_mut().unwrap().write(&bytes[off..]) {
+                    Ok(n) => off += n,
+                    Err(e) if e.kind() == std::io::ErrorKind::WouldBlock => {
+                        spins += 1;
+                        if spins > 100_000 {
+                            xplore::bug!("client write never completes");
+                        }
+                        if let Some(r) = &trt {
+                            r.block_on(async {
+                                tokio::task::yield_now().await;
+                                tokio::task::yield_now().await;
+                            });
+                        }
+                        let mut tcx = Context::from_waker(&waker);
+                        if let Poll::Ready(r) = fut.as_mut().poll(&mut tcx) {
+                            return Verdict::fail("server:run-returned", what(&format!("Server::run() completed with {r:?}")));
+                        }
+                    }
+                    Err(e) => xplore::bug!("client write: {e}"),
+                }
             }
             if c.early {
                 c.end();
